@@ -42,7 +42,8 @@ def main():
             {"name": "ACK", "path": "harness/src/ack.rs", "serves_properties": ["C12"], "kind_free_text": "turnstile-controlled schedules of the acknowledgement (enumeration + proptest) and an end-to-end stress layer"},
             {"name": "SKETCH", "path": "harness/src/sketch.rs", "serves_properties": ["C14"], "kind_free_text": "differential tests of packed rows / count-min sketch / TinyLFU against an unpacked reference"},
             {"name": "FUZZ", "path": "harness/fuzz", "serves_properties": ["C01", "C03", "C04", "C05", "C06", "C07", "C08", "C09", "C10", "C11", "C14", "C16", "C17"], "kind_free_text": "cargo-fuzz / libFuzzer targets seq_history and sketch (coverage-guided, semantic oracle inside the target); thorough tier only"},
-            {"name": "CONC", "path": "harness/src/conc.rs", "serves_properties": ["C01", "C02", "C03", "C04", "C05", "C07", "C09", "C10", "C11", "C13", "C15", "C16", "C17", "C18"], "kind_free_text": "generated concurrent programs with delay injection at hook sites, stamped history, pure history checkers, no-progress watchdog"},
+            {"name": "VOLUME", "path": "harness/src/volume.rs", "serves_properties": ["C03", "C05", "C09", "C10", "C15", "C16"], "kind_free_text": "generated bulk histories (thousands to 100 000 keys, up to 1024 expiry shards) in a roomy cache against a plain map; reads, physical state, accounting and every counter compared after each phase"},
+            {"name": "CONC", "path": "harness/src/conc.rs", "serves_properties": ["C01", "C02", "C03", "C04", "C05", "C06", "C07", "C09", "C10", "C11", "C12", "C13", "C15", "C16", "C17", "C18"], "kind_free_text": "generated concurrent programs with delay injection at hook sites, stamped history, pure history checkers, no-progress watchdog"},
             {"name": "SEQ", "path": "harness/src/seq.rs", "serves_properties": sorted(k for k, v in CHECKS.items() if "SEQ" in v[0]), "kind_free_text": "sequential model-based histories (proptest) against a reference model, harness-owned clock, worker stall windows"},
         ],
         "checks": [],
